@@ -26,12 +26,19 @@ type evalLog struct {
 
 var epoch = time.Now()
 
+var runNo int
+
 func mono() int64 { return int64(time.Since(epoch)) }
 
 // one real run of a rate trigger built from api.NewIterationWorker (through the constant
 // trigger's constructor when a distribution is wanted) with a logging rate function
 func oneRun(o *kit.Out, r *kit.Rand, forceSaturated int) {
 	interval := time.Duration(kit.Pick(r, 5, 10, 20, 50, 100, 300)) * time.Millisecond
+	runNo++
+	if runNo%3 == 0 {
+		// intervals that are no whole number of milliseconds (a rate per 2500us, per 7.5ms)
+		interval = time.Duration(kit.Pick(r, 2500, 7500, 12500, 1900)) * time.Microsecond
+	}
 	dist := kit.Pick(r, "none", "none", "regular", "random")
 	profile := r.Intn(3)
 	if r.Chance(25) {
